@@ -156,6 +156,7 @@ int main(int argc, char **argv)
 	v_init(argc, argv);
 	if (V_NDISPATCHED <= 0) v_harness_fail("no dispatched entry points in this build");
 	if (refgf_init() || refcrc_selftest()) v_harness_fail("reference self-test");
+	cpusim_no_interpose = 1;   /* this engine inspects and traces the slots themselves */
 	cpusim_init();
 	int trace = !strncmp(vopt.mode, "trace:", 6) || !strncmp(vopt.mode, "tracc:", 6), with_codec = !strncmp(vopt.mode, "tracc:", 6);
 	if (!trace) {
